@@ -127,6 +127,26 @@ def planted_7_2_7(rng):
     return gd, q
 
 
+def planted_many_treatments(rng):
+    """a -> m -> y with m <-> y (the front-door skeleton without the a <-> y arc) and 21..30 further parents r_i of y,
+    all of them treatments: line 6 is reached on a graph whose last node has dozens of predecessors, and the district of
+    y has a member (m) whose parent (a) is not a parent of y.  -> (graph, query, constants)"""
+    k = rng.randint(21, 30)
+    a, m, y = rng.sample(["A", "M", "Y", "V1", "V2", "V3", "B"], 3)
+    rs = [f"R{i:02d}" for i in range(k)]
+    di = [[a, m], [m, y]] + [[r, y] for r in rs]
+    bi = [[m, y]]
+    if rng.random() < 0.3:
+        bi.append([a, rs[0]])
+    if rng.random() < 0.3:
+        di.append([rs[1], m])
+    nodes = [a, m, y] + rs
+    rng.shuffle(nodes)
+    gd = {"nodes": nodes, "di": di, "bi": bi, "hostile": "planted-many-treatments"}
+    live = set(rng.sample(rs, 2))
+    return gd, {"X": sorted([a] + rs), "Y": [y], "cls": "planted-many-treatments"}, {r: 1 for r in rs if r not in live}
+
+
 def example_graphs():
     import y0.examples as ex
 
@@ -243,7 +263,7 @@ def run_shard(ctx, K=None):
     ctx.extras["wide_graphs"] = wide
     # the same with 64..130 nodes (sparse padding): thresholds on node counts far above the usual sizes
     huge = 0
-    for _ in range(ctx.share({"quick": 480, "thorough": 4000}[ctx.tier])):
+    for _ in range(ctx.share({"quick": 160, "thorough": 4000}[ctx.tier])):
         core = gg.random_admg(rng, rng.choice([3, 4, 4, 5]))
         q = gq.random_query(rng, core)
         if q is None:
@@ -271,6 +291,9 @@ def run_shard(ctx, K=None):
         gd_, q_ = planted_7_2_7(rng)
         run_case(ctx, gd_, q_, via=rng.choice(("outcomes", "identify")))
     mon_id.CONFIG["max_nodes_semantic"] = 6
+    for _ in range(ctx.share({"quick": 64, "thorough": 800}[ctx.tier])):
+        gd_, q_, cards_ = planted_many_treatments(rng)
+        run_case(ctx, gd_, q_, via=rng.choice(("outcomes", "identify")), cards=cards_)
     # edit histories: the same graph object is queried, edited in place and queried again
     _edit_histories(ctx, rng)
     exs = example_graphs()
